@@ -60,7 +60,9 @@ def inline_st(features: set, wild: bool, depth: int = 2):
         leaves.append(st.builds(lambda s: {"t": "codespan", "s": s}, text_run(wild, 1, 2)))
     if "autolink" in features:
         leaves.append(st.builds(lambda s: {"t": "autolink", "dest": s},
-                                st.sampled_from(["https://e.org/a", "http://x.y/z?q=1&r=2", "mailto:a@b.c"])))
+                                # (the text of an autolink is what is written, not the normalised destination)
+                                st.sampled_from(["https://e.org/a", "http://x.y/z?q=1&r=2", "mailto:a@b.c", "jane@example.org",
+                                                 "https://e.org/stra\u00dfe", "https://e.org/a%20b"])))
     if "image" in features:
         leaves.append(st.builds(lambda a, s, t: {"t": "image", "alt": a, "src": s, "title": t},
                                 # (the alt text is the description's text content in source order, markup inside it included)
@@ -222,7 +224,8 @@ def _blocks_st(features: set, wild: bool = False, depth: int = 3, max_blocks: in
                                 st.sampled_from(["<div>\nhtml *text*\n</div>", "<!-- a comment -->", "<hr/>",
                                                  "<p class=\"c\">para</p>", "<table><tr><td>x</td></tr></table>",
                                                  "<script>\nalert(1)\n</script>", "<?php echo 1; ?>", "<!DOCTYPE html>",
-                                                 "<custom-tag attr=\"1\">\ninner\n</custom-tag>"])))
+                                                 "<custom-tag attr=\"1\">\ninner\n</custom-tag>",
+                                                 "<p>lead</p>\n<em>Figure 1</em>"])))
     if "html_convertible" in features:
         leaves.append(st.builds(lambda s: {"t": "html", "text": s},
                                 st.sampled_from(['<img src="a.png" alt="alt text" width="100px">',
